@@ -121,7 +121,13 @@ class StdioClient:
         # PERFORMANCE: Check legacy streams first (more specific routing)
         # Use get() instead of pop() to avoid KeyError and allow dict reuse
         msg_id_str = str(msg_id)
-        legacy_stream = self._pending.get(msg_id_str)
+        # (a per-request stream waits for the *answer*: a request of the server's
+        # own that happens to carry the same id is not it)
+        legacy_stream = (
+            self._pending.get(msg_id_str)
+            if getattr(msg, "method", None) is None
+            else None
+        )
 
         if legacy_stream:
             # PERFORMANCE: Remove from pending dict only after confirming it exists
